@@ -35,9 +35,10 @@ Record hist := {
   h_shift : N;                       (* sum of the cookie-secret age shifts: virtual clock skew *)
   h_epoch : N;
   h_issued : list (N * addr * N);    (* epoch, address, virtual time of every cookie issued *)
-  h_last : list (N * term) }.        (* peer -> MAC1 of the last handshake message the device sent it *)
+  h_last : list (N * term);          (* peer -> MAC1 of the last handshake message the device sent it *)
+  h_id : option N }.                 (* the device's static key number if it was changed through UAPI *)
 
-Definition hist0 : hist := {| h_until := 0; h_shift := 0; h_epoch := 0; h_issued := []; h_last := [] |}.
+Definition hist0 : hist := {| h_until := 0; h_shift := 0; h_epoch := 0; h_issued := []; h_last := []; h_id := None |}.
 
 Fixpoint lookup {A} (l : list (N * A)) (k : N) : option A :=
   match l with [] => None | (k', v) :: t => if k' =? k then Some v else lookup t k end.
@@ -95,7 +96,10 @@ Definition cookie_authentic (h : hist) (m : msg) : bool :=
   | _ => false
   end.
 
-Definition recv_ok (dev : N) (h : hist) (now : N) (m : msg) (qload allow : bool) (o : sobs) : bool :=
+Definition identity (dev : N) (h : hist) : N := match h_id h with Some k => k | None => dev end.
+
+Definition recv_ok (dev0 : N) (h : hist) (now : N) (m : msg) (qload allow : bool) (o : sobs) : bool :=
+  let dev := identity dev0 h in
   let vnow := now + h_shift h in
   if negb (gate m) then silent_inert o h
   else if m_type m =? MessageTransportType then
@@ -147,14 +151,16 @@ Definition advance (dev : N) (h : hist) (e : event) (o : sobs) : hist :=
                 | EForceLoad now d on => if on then now + d else 0
                 | ERecv now m true _ _ _ =>   (* IsUnderLoad found the queue loaded: load lasts one more second *)
                     if gate m && ((m_type m =? MessageInitiationType) || (m_type m =? MessageResponseType))
-                       && check_mac1 dev m
+                       && check_mac1 (identity dev h) m
                     then now + UnderLoadAfterTime else h_until h
                 | _ => h_until h
                 end;
      h_shift := match e with EShiftSecret d => h_shift h + d | _ => h_shift h end;
      h_epoch := s_epoch o;
-     h_issued := learn_issued (h_issued h) vnow (s_outs o);
-     h_last := learn_last (h_last h) (s_outs o) |}.
+     (* a new identity starts with no cookie secret: cookies issued before are worthless *)
+     h_issued := match e with ESetIdentity _ _ => [] | _ => learn_issued (h_issued h) vnow (s_outs o) end;
+     h_last := learn_last (h_last h) (s_outs o);
+     h_id := match e with ESetIdentity _ k => Some k | _ => h_id h end |}.
 
 Definition step_ok (dev : N) (h : hist) (e : event) (o : sobs) : bool :=
   match e with
